@@ -81,3 +81,22 @@ Theorem C03_warning_needs_conflict :
   forall l : list cand, cell_undecided l -> 2 <= length l.
 Proof. exact PipelineWarn.undecided_needs_two. Qed.
 Print Assumptions C03_warning_needs_conflict.
+
+From YG Require Import LRBase CompleteDriver C03Assembly Pipeline WfGrammar.
+Close Scope Z_scope.
+Open Scope nat_scope.
+
+(* the same under the boolean well-formedness check of the grammar object alone *)
+Theorem C03_checked :
+  forall gi : ginfo,
+         wf_gi gi = true ->
+         forall t : tables,
+         generate_tables gi = inr t ->
+         forall q r a : nat,
+         q < length (t_aut t) ->
+         r <> 0 ->
+         In (r, length (rhs_of (gi_rules gi) r)) (items (st (t_aut t) q)) ->
+         In a (la_lookup (t_la t) q r) <->
+         LALR_LA (gi_rules gi) (t_aut t) q (r, length (rhs_of (gi_rules gi) r)) a.
+Proof. exact WfGrammar.checked_lookaheads. Qed.
+Print Assumptions C03_checked.
